@@ -60,7 +60,10 @@ def make_droplet(d, salt):
 
 def make_time(t, salt):
     """abstract time (tenths) -> int / float / numpy scalar, below 2**53"""
-    mode = salt % 4
+    mode = salt % 5
+    if mode == 4:
+        # ints and fractions mixed in ONE object (an int first, fractions later; or the other way round)
+        return int(t) if t % 2 == 0 else t / 10
     if mode == 0:
         return t / 10
     if mode == 1:
